@@ -404,6 +404,16 @@ class Ctx:
     def mismatch(self, op, request, impl, model):
         self.count("mismatch:" + op)
         if len(self.mismatches) < 20:
+            if isinstance(request, dict) and request.get("schema") == "random" and "schema_spec" not in request:
+                # (a mismatch is compared after the batch: the random schema it belongs to is found by its Lean id)
+                try:
+                    infos = list(getattr(self.driver, "schemas", []))
+                    sid = request.get("s", request.get("_sid"))
+                    cand = [i for i in infos if sid is not None and getattr(i, "lean_id", None) == sid]
+                    if cand:
+                        request = dict(request, schema_spec=json.loads(json.dumps(cand[0].schema.spec, default=str)))
+                except Exception:  # noqa: BLE001
+                    pass
             self.mismatches.append({"op": op, "request": request, "impl": impl, "model": model})
 
     # -- finish
